@@ -20,6 +20,8 @@ structure SuiteState where
   topen : List (String × Txn × List (BOp × Nat)) := []
   /-- a writer started by `astart` is held at its commit RPC -/
   theld : Bool := false
+  /-- `storm <n> <ops>`: before each of the first n prewrites of the next `bcommit` a writer of `ops` is abandoned -/
+  tstorm : Nat × List BOp := (0, [])
   /-- the next range read / count / stream meets a transient engine error on its read of the compaction record -/
   getFault : Bool := false
   /-- revisions delivered so far on the (single) native watch stream of the script -/
@@ -164,15 +166,30 @@ def stepEngine (st0 : SuiteState) (toks : List String) : SuiteState × String :=
     | none => (st, "bcommit no-such-batch")
     | some (_, t, bops) =>
       let st := { st with topen := st.topen.filter (·.1 != id) }
-      -- `Commit` as it is: the loop of KB.EngineTxn.commitRetry
-      let r := commitRetry q st.tstore t (bops.map (·.1))
+      -- `Commit` as it is: the loop of KB.EngineTxn (`commitRetry` when nobody interferes). With a storm armed, an
+      -- abandoned writer gets in before the prewrite of each of the first n attempts: before the first one (the
+      -- transaction is open since `bbegin`), and between the re-begin and the prewrite of re-runs 1 .. n-1 (`Env`)
+      let (n, aops) := st.tstorm
+      let st := { st with tstorm := (0, []) }
+      -- (an attempt whose steps fail on its snapshot sends no prewrite: nobody gets in before it)
+      let stepsOk (snap : Store) : Bool := match commit q snap (bops.map (·.1)) with | .ok _ => true | .error _ => false
+      let s0 := if n > 0 && stepsOk t.snap then (abandon q st.tstore aops).1 else st.tstore
+      let env : Env := fun fuel s =>
+        if maxConflictRetry - fuel < n && stepsOk s.data then (abandon q s aops).1 else s
+      let r3 := commitLoop q env maxConflictRetry s0 t (bops.map (·.1))
+      let r : TStore × TxnRes := (r3.1, r3.2.1)
       match r.2 with
       | .ok =>
         -- the data goes through the suite's own commit path (ttl bookkeeping); it must be what the transaction wrote
         let st' := engCommit st bops
         if st'.eng == r.1.data then ({ st' with twrites := r.1.writes, tmarks := r.1.marks, tclock := r.1.clock }, "bcommit ok")
         else (st', "bcommit MODEL-INCONSISTENT")
-      | res => ({ st with tmarks := r.1.marks, tclock := r.1.clock }, s!"bcommit {commitLine (res.asResult.map (fun _ => st.eng))}")
+      | .failed e => ({ st with tmarks := r.1.marks, tclock := r.1.clock }, s!"bcommit {commitLine (.error e)}")
+      | .writeConflict => ({ st with tmarks := r.1.marks, tclock := r.1.clock }, "bcommit cf bare nil")
+      -- "write conflict persisted over 9 attempts": a plain error (classify: other)
+      | .persistentConflict => ({ st with tmarks := r.1.marks, tclock := r.1.clock }, "bcommit err other")
+  | "storm" :: n :: ops =>
+    ({ st with tstorm := (atou n, (ops.filterMap (parseBOpAt st.eng)).map (·.1)) }, "storm ok")
   | "abandon" :: ops =>
     let r := abandon q st.tstore ((ops.filterMap (parseBOpAt st.eng)).map (·.1))
     let st := { st with tmarks := r.1.marks, tclock := r.1.clock }
